@@ -7,7 +7,8 @@
   Non-blocking operations mirror the CURRENT code (finding F13, property C15).
 -/
 import NngModel.Model.RawMq
-import NngModel.Generated.Consts
+import NngModel.Generated.Base
+import NngModel.Generated.C04REP
 namespace Nng.Xreq
 open Nng Nng.Proto Nng.RawMq
 
